@@ -242,7 +242,8 @@ func parseHeaders(h *protocol.RequestHeader, buf []byte) (int, error) {
 					if bytes.Equal(s.Value, bytestr.StrClose) {
 						h.SetConnectionClose(true)
 					} else {
-						h.SetConnectionClose(false)
+						// "Close", "close, TE": the option in another spelling or among others
+						h.SetConnectionClose(ext.HasCloseOption(s.Value))
 						h.AddArgBytes(s.Key, s.Value, protocol.ArgsHasValue)
 					}
 					continue
